@@ -203,8 +203,9 @@ def check_fd_uses(c, repo):
             if d in FD_PRIMS and k.args:
                 a = k.args[0]
                 t = norm(a)
-                if t in ('self.STDOUT_FILENO', 'self.STDIN_FILENO', 'self.STDERR_FILENO'):
-                    continue
+                if t in ('self.STDOUT_FILENO', 'self.STDIN_FILENO', 'self.STDERR_FILENO') or \
+                        ctext(a, f) in ('self.STDOUT_FILENO', 'self.STDIN_FILENO', 'self.STDERR_FILENO'):
+                    continue          # (also through a local that holds the constant)
                 n += 1
                 ok = t == 'self.child_fd' or (isinstance(a, ast.Name) and from_params_only(f, a.id))
                 c.check(ok, f, k, '%s uses self.child_fd as it is now (after close() it is -1 and the call fails with EBADF instead of '
